@@ -175,7 +175,11 @@ impl FrequencySketch {
             count += (*entry & ONE_MASK).count_ones();
             *entry = (*entry >> 1) & RESET_MASK;
         }
-        self.size = (self.size >> 1) - (count >> 2);
+        // Subtract before halving, as Caffeine does. `count >> 2` is at most
+        // `4 * table.len()`, which is below `sample_size` (the value `size` has
+        // reached here), so this cannot underflow; halving first did underflow
+        // when more than `2 * size` counters were odd.
+        self.size = (self.size - (count >> 2)) >> 1;
         #[cfg(mini_moka_verif)]
         {
             self.verif_resets += 1;
